@@ -143,6 +143,20 @@ CLAIMED = {
               "harness/co2stub.hpp only satisfies the linker)."),
         technique="TLC-generated table shapes + TLC trace validation (monitor) of every evaluation of the real PVT classes",
     ),
+    "C15": dict(
+        category="model_checking",
+        text=("SatMonitor.tla: the combinations of input family, table size, saturation regions, end-point scaling (off / two-point / "
+              "three-point, with or without per-cell end-point arrays) and Carlson hysteresis (off / identical / different imbibition "
+              "curves), enumerated by TLC; relations Node, Between, Range, Same, EndPoint, Scan over integer-scaled values.  Monotone "
+              "random tables in both families and consistent end-points are drawn per model; harness/satmon builds "
+              "EclMaterialLawManager for the primary deck and its companions (other family, unscaled, no hysteresis), evaluates the "
+              "two-phase laws at all nodes and interior points, the three-phase API on random saturations and drainage / imbibition "
+              "histories; TLC validates every event."),
+        design_ref="DESIGN.md section 5, C15",
+        note=("Trusted: TLC; the event scaling in the harness.  Stone models, Killough hysteresis, capillary-pressure hysteresis, vertical "
+              "scaling (KRW, KRO, KRG, PCW) and directional / irreversible scaling are not checked."),
+        technique="TLC-enumerated model combinations + TLC trace validation (monitor) of every evaluation of the real material law manager",
+    ),
     "C16": dict(
         category="model_checking",
         text=("DualNumbers.tla states the differentiation rules over terms (exact rationals, named real functions); TLC "
